@@ -110,6 +110,11 @@ CHECKS["C03"] = ("model_checking",
     "Small frames with up to 2 (3) cuts and every reader interleaving in TLC; on the real code: a stream of three P-DATA-TF PDUs (one C-ECHO-RQ in three command fragments) plus A-RELEASE-RQ, the A-ASSOCIATE-RQ, and the A-ASSOCIATE-AC towards a requestor: all single cuts, all close offsets, TLC's double-cut patterns, gaps of 3 ms and of 0.6-0.7 s (beyond connection_timeout, inside the protocol timeouts): PDUs delivered in order, each once, byte-identical; a close inside a PDU gives Evt17 and never Evt19.",
     "Trusted: loopback TCP with TCP_NODELAY and pauses (the kernel may coalesce); PDU lengths up to a few hundred bytes.", "§6 C03", "framing")
 
+CHECKS["C02"] = ("model_checking",
+    "TLA+ Mutate spec over PduLayout (receive-path classification, conformant variants PS3.8 allows, systematic mutations) evaluated by TLC; every input is sent over TCP loopback to a real pynetdicom acceptor in the state where that PDU can arrive (S2C); escapes from provider/association threads, hangs, first FSM event, stability of decoded PDUs and acceptance of conformant variants are judged by the Trace_Bytes spec (C2S)",
+    "Six base PDUs (two A-ASSOCIATE-RQ, P-DATA with a C-ECHO-RQ, A-RELEASE-RQ, A-ABORT, A-ASSOCIATE-RJ): truncation and extension at every offset, substitution with 0x00/0xFF and bit flip at every offset, PDU length and every top-level item length off by one / zero / huge, unknown PDU types, and the conformant variants (reserved bytes 0xFF/0x01, protocol versions 3/0xFFFF/0x8001): about 3200 inputs (1440 in quick).",
+    "Trusted: loopback delivery; inputs reach Sta2 or Sta6 only; races between the received bytes and the association layer's own requests are the C05 known findings and are listed for C02 by the same event/state.", "§6 C02", "pdu")
+
 NOT_YET = {}
 
 
